@@ -91,6 +91,18 @@ Theorem C07_transpose_swaps_samples_identity : forall (k : nat) (m : lmodel),
 Proof. exact transpose_swaps_samples_identity. Qed.
 Print Assumptions C07_transpose_swaps_samples_identity.
 
+(* a 2-d batch of columns handed to a matrix model AS IT IS (identity geometries): the result is the matrix product A X, and
+   its j-th column is A applied to the j-th column of the batch -- batches are mapped column by column *)
+Theorem C07_matrix_batch_columnwise : forall (n : nat) (A : list (list Qc)) (k c : nat) (l : list Qc),
+  wf_mat n A -> length l = (c * n)%nat ->
+  let X := chunks c n l in
+  forward (mat_model n A (GId n) (GId k)) (V2 n c l) = Some (V2 (length A) c (concat (mmul c A X))) /\
+  wf_mat c (mmul c A X) /\ length (mmul c A X) = length A /\
+  (forall e, length e = c -> qmatvec (mmul c A X) e = qmatvec A (qmatvec X e)) /\
+  (forall j, (j < c)%nat -> col (Q2Qc 0) (mmul c A X) j = qmatvec A (col (Q2Qc 0) X j)).
+Proof. exact matrix_batch_columnwise. Qed.
+Print Assumptions C07_matrix_batch_columnwise.
+
 (* ---- Deconvolution2D's model as a map between parameter vectors ------------------------------------------- *)
 
 (* pad + valid convolution through Image2D (order C) is LINEAR: all five boundary conditions, every PSF and size *)
